@@ -282,7 +282,17 @@ class LRI(dict):
             self._init_ll()
 
     def copy(self):
-        return self.__class__(max_size=self.max_size, values=self)
+        with self._lock:
+            ret = self.__class__(max_size=self.max_size)
+            # walk the linked list, oldest first, instead of reading
+            # through __getitem__: leaves our own stats and recency
+            # alone and gives the copy the same eviction order
+            anchor = self._anchor
+            link = anchor[NEXT]
+            while link is not anchor:
+                ret[link[KEY]] = link[VALUE]
+                link = link[NEXT]
+            return ret
 
     def setdefault(self, key, default=None):
         with self._lock:
